@@ -367,6 +367,18 @@ def stepBase (d : DState) (line : List String) : DState × String :=
             if !known s f || !complete s f then (d, "unstable")
             else if !stored s a then (d, "absent")
             else out d (nsGet s f a) "ok"
+      | "getfault", [which] =>
+        if fi.enc || which.length < 2 then bad else
+        match (which.drop 1).toString.toNat? with
+        | none => bad
+        | some i =>
+          let a? : Option Nat :=
+            if which.startsWith "h" then f.hash[i]? else if which.startsWith "d" then f.data[i]? else none
+          match a? with
+          | none => bad
+          | some a =>
+            if !known s f || !complete s f then (d, "unstable")
+            else let (s1, ok) := nsGetFault s f a; out d s1 (if ok then "ok" else "err")
       | _, _ => bad
   | _ => bad
 
